@@ -30,7 +30,7 @@ type PatSpec struct {
 	New      bool     `json:"new,omitempty"`
 	Calls    []string `json:"calls,omitempty"`
 	Auths    []string `json:"auths,omitempty"`
-	Apply    string   `json:"apply,omitempty"`  // "", "ok", "fail", "nochange"
+	Apply    string   `json:"apply,omitempty"`  // "", "ok", "fail", "failnotfound", "failreserr", "nochange"
 	Listen   int      `json:"listen,omitempty"` // number of listeners
 	Nest     bool     `json:"nest,omitempty"`   // listener 0 emits a nested custom event on the same resource
 }
